@@ -699,6 +699,8 @@ class LibMixin:
             if (id(v.node), name) in attrs:
                 return [(st, attrs[(id(v.node), name)])]
             return [self.raised(st, "AttributeError", f"function has no attribute {name}")]
+        if isinstance(v, VRange) and name in ("start", "stop", "step"):
+            return [(st, VInt({"start": v.start, "stop": v.stop, "step": z3.IntVal(1)}[name]))]
         raise Unsupported(f"attribute {name} of {type(v).__name__}")
 
     def set_attr(self, st, obj, name, val):
@@ -895,7 +897,11 @@ class LibMixin:
             for s, ok in self.branch(st, has):
                 out.append((s, VStr(part)) if ok else self.raised(s, "IndexError", "tuple index out of range"))
             return out
-        raise Unsupported(f"subscript of {type(obj).__name__}")
+        if isinstance(obj, VBuiltin) and obj.name.rsplit(".", 1)[-1] in ("Optional", "Union", "List", "Dict", "Tuple", "Sequence", "Mapping", "Iterable", "Iterator", "Type", "Callable", "list", "dict", "tuple", "set", "frozenset", "type") and obj.self is None:
+            # a typing form (Optional[int], dict[str, object]) used as a runtime value (typing.cast):
+            # an opaque constant
+            return [(st, VConst(("typing-form", obj.name)))]
+        raise Unsupported(f"subscript of {type(obj).__name__} {obj!r}")
 
     def class_table_lookup(self, mod, lit, key):
         """value of a module-level dict literal keyed by classes, for a class key (or None)"""
